@@ -121,6 +121,8 @@ structure St where
   updates : Nat
   parks : Nat → Nat
   wakes : Nat → Nat
+  /-- ghost: `waker n = some g` — raiser g has popped node n and not yet woken its fiber -/
+  waker : Nat → Option Nat
   /-- ghost: raises latched (NULL→RAISED), coalesced (RAISED→RAISED), consumed, released -/
   latched : Nat
   coalesced : Nat
@@ -132,7 +134,7 @@ structure St where
 def init (nodeOf : Nat → Nat) : St :=
   { counter := 0, head := .nil, next := fun _ => .nil, ndata := fun _ => 0, fnode := nodeOf,
     scratch := fun _ => false, pc := fun _ => .idle, stack := [], updates := 0,
-    parks := fun _ => 0, wakes := fun _ => 0, latched := 0, coalesced := 0, consumed := 0,
+    parks := fun _ => 0, wakes := fun _ => 0, waker := fun _ => none, latched := 0, coalesced := 0, consumed := 0,
     released := 0, tokens := 0, tk := fun _ => .idle }
 
 /-- the CAS2 itself: succeeds iff both words are as expected -/
@@ -216,7 +218,8 @@ def step (s : St) : Ev → Option St
     | .rNext st c n x =>
       if ec = c ∧ eh = .node n ∧ nh = x then
         if ok then some { s with counter := nc, head := x, updates := s.updates + 1, stack := s.stack.drop 1,
-                                 released := s.released + 1, pc := upd s.pc f (.rPopped st n) }
+                                 released := s.released + 1, waker := upd s.waker n (some f),
+                                 pc := upd s.pc f (.rPopped st n) }
         else some { s with pc := upd s.pc f (.rLoop st) }
       else none
     | _ => none
@@ -263,7 +266,8 @@ def step (s : St) : Ev → Option St
   | .wStateReady f g =>
     match s.pc f with
     | .rReady st g' =>
-      if g = g' then some { s with wakes := upd s.wakes g (s.wakes g + 1), pc := upd s.pc f (.rDone st true) } else none
+      if g = g' then some { s with wakes := upd s.wakes g (s.wakes g + 1), waker := upd s.waker g none,
+                                   pc := upd s.pc f (.rDone st true) } else none
     | _ => none
   | .retRaise f st r =>
     match s.pc f with
